@@ -82,7 +82,7 @@ class C11(Prop):
                 k += 1
                 yield mk_hist_case(ETS[k % 4], axes, list(hist))
         # random, long, with wrong-arity inserts
-        nrand = 300 if tier == "quick" else 3000
+        nrand = 300 if tier == "quick" else 12000
         for _ in range(nrand):
             nax = rng.range(1, 3)
             axes = []
@@ -99,7 +99,7 @@ class C11(Prop):
             k += 1
             yield mk_hist_case(ETS[k % 4], axes, pts)
         # matrix form over layouts
-        nmat = 150 if tier == "quick" else 1500
+        nmat = 150 if tier == "quick" else 6000
         for _ in range(nmat):
             nax = rng.range(1, 3)
             axes = [[rng.range(0, 8) for _ in range(rng.range(0, 4))] for _a in range(nax)]
